@@ -475,6 +475,12 @@ theorem C06_prefix_scan_preserves_wellformed (lib lib' : Lib) (n : Nat) (item : 
     obtain ⟨g1, g2, _⟩ := hT base u hu
     exact tableOK_append hT name v hfresh (by rw [h1]; exact mul_ne_zero g1 hpf)
       (by rw [h3]; exact g2) h5
+  have ite_some : ∀ (c : Prop) [Decidable c] (o : Option (PUnit Rat)) (u : PUnit Rat),
+      (if c then o else none) = some u → o = some u := by
+    intro c _ o u h
+    split at h
+    · exact h
+    · simp at h
   unfold scanOne at h
   simp only at h
   split at h
@@ -486,14 +492,14 @@ theorem C06_prefix_scan_preserves_wellformed (lib lib' : Lib) (n : Nat) (item : 
       · simp at h
       · rename_i v hv
         simp at h; subst h
-        exact ⟨key pf u v _ _ (hp _ _ hpf) hfresh hu hv, rfl⟩
+        exact ⟨key pf u v _ _ (hp _ _ hpf) hfresh (ite_some _ _ _ hu) hv, rfl⟩
     · split at h
       · rename_i pf u hpf hu
         split at h
         · simp at h
         · rename_i v hv
           simp at h; subst h
-          exact ⟨key pf u v _ _ (hp _ _ hpf) hfresh hu hv, rfl⟩
+          exact ⟨key pf u v _ _ (hp _ _ hpf) hfresh (ite_some _ _ _ hu) hv, rfl⟩
       · simp at h
 
 /-- the shipped prefix multipliers are non-zero -/
